@@ -1,7 +1,7 @@
 //! C11 — complement, converse, union and vertex filtering compute their set
 //! definitions, in every representation, for every worker-thread count.
 
-use super::c17::{draw_map_pair, draw_order, draw_order_tail, run_top};
+use super::c17::{draw_giant, draw_map_pair, draw_order, draw_order_tail, run_top};
 use super::{draw_sched, relation_class};
 use crate::core::{Lane, Scenario, Stats, Tier, Violation};
 use crate::exec::Conf;
@@ -165,7 +165,7 @@ impl Lane for C11 {
         };
         let max = if rng.chance(1, 5) { max } else { max.min(20) };
         let (d, e) = if rng.chance(1, 2) {
-            let n1 = if rng.chance(1, 150) { draw_order_tail(rng, max).max(300).min(1200) } else { draw_order_tail(rng, max).min(200) };
+            let n1 = if rng.chance(1, 150) { draw_giant(rng, 1100) } else { draw_order_tail(rng, max).min(200) };
             let n2 = match rng.below(4) {
                 0 => n1,
                 1 => rng.range(1, n1),
@@ -212,8 +212,13 @@ impl Lane for C11 {
         }
         // threaded implementations: every configuration of the scenario
         let giant = d.order().max(e.order()) > 250;
-        if d.is_contiguous() && !giant {
-            vs.extend(run_top(&TOp::ListComplement { d: d.clone() }, &sc.confs, st, "contiguous"));
+        if giant {
+            st.bump("probe/giant_operand");
+        }
+        if d.is_contiguous() {
+            // the complement of a sparse giant has ~10^6 arcs: two configurations instead of all
+            let confs = if giant { &sc.confs[..sc.confs.len().min(2)] } else { &sc.confs[..] };
+            vs.extend(run_top(&TOp::ListComplement { d: d.clone() }, confs, st, "contiguous"));
         }
         if both_contig {
             vs.extend(run_top(&TOp::ListUnion { d: d.clone(), e: e.clone() }, &sc.confs, st, "contiguous"));
@@ -224,12 +229,10 @@ impl Lane for C11 {
             st.case(&[vmodel::rng::digest(serde_json::to_string(&sc.body).unwrap().as_bytes())]);
         }
         // sequential implementations: once per input (no schedule to vary)
-        let comp = if giant { Dg::empty(1) } else { d.complement() };
+        let comp = d.complement();
         let conv = d.converse();
         let uni = d.union(e);
-        if !giant {
-            seq_unary::<AdjacencyMap>(st, &mut vs, "complement", d, &comp, |g| g.complement());
-        }
+        seq_unary::<AdjacencyMap>(st, &mut vs, "complement", d, &comp, |g| g.complement());
         seq_unary::<AdjacencyMap>(st, &mut vs, "converse", d, &conv, |g| g.converse());
         let keep2 = keep.clone();
         seq_unary::<AdjacencyMap>(st, &mut vs, "filter_vertices", d, &d.induced(keep), move |g| {
@@ -237,10 +240,8 @@ impl Lane for C11 {
         });
         if d.is_contiguous() {
             seq_unary::<AdjacencyList>(st, &mut vs, "converse", d, &conv, |g| g.converse());
-            if !giant {
-                seq_unary::<AdjacencyMatrix>(st, &mut vs, "complement", d, &comp, |g| g.complement());
-                seq_unary::<EdgeList>(st, &mut vs, "complement", d, &comp, |g| g.complement());
-            }
+            seq_unary::<AdjacencyMatrix>(st, &mut vs, "complement", d, &comp, |g| g.complement());
+            seq_unary::<EdgeList>(st, &mut vs, "complement", d, &comp, |g| g.complement());
             seq_unary::<AdjacencyMatrix>(st, &mut vs, "converse", d, &conv, |g| g.converse());
             seq_unary::<EdgeList>(st, &mut vs, "converse", d, &conv, |g| g.converse());
             weighted_converse(st, &mut vs, d, *wseed);
